@@ -120,11 +120,19 @@ class Contract:
         return self.key.split('::')[1]
 
 
-def contract(key, **kw):
+def contract(key, tag=None, **kw):
+    """register a contract.  Several contracts may describe one function (different input
+    families): the untagged one is the primary (used at modular call sites and for loop
+    contracts), tagged ones are additional verification tasks."""
     c = Contract(key, **kw)
-    k = key if not kw.get('which') else key
+    c.tag = tag
+    k = key
     if kw.get('which') == 'setter':
         k = key + '@setter'
+    if tag:
+        k = f'{k}#{tag}'
+    if k in REGISTRY:
+        raise EngineError(f'duplicate contract {k}')
     REGISTRY[k] = c
     return c
 
